@@ -293,3 +293,17 @@ UNITS += [
        native=gen_useflags),
 ]
 
+
+
+# ---------------------------------------------------------------- termination of flag expansion (deductive)
+UNITS += [
+  unit('compiler/rule_translate.py', 'RuleCompileException', external=True, params=[], fields={}),
+  unit(U, 'LogicaProgram.UseFlagsAsParameters', name='LogicaProgram.UseFlagsAsParameters[termination]', props=['C10'],
+       params=['sql'], types={'sql': 'str'}, fields={'self.flag_values': 'dict[str,str]'}, returns='str',
+       # expansion terminates: the pass counter bounds the loop (variant 101 - num_subs), the 101st pass
+       # raises the recursive-flags diagnostic; the inner substitution loop is abstracted (any text)
+       ensures=["True"],
+       may_raise={'RuleCompileException': "True"},
+       loops={0: {'inv': ["0 <= num_subs and num_subs <= 100"], 'dec': "101 - num_subs"},
+              1: {'inv': []}}),
+]
